@@ -58,7 +58,7 @@ RunResult exec_plan(const Plan& p, const ExecFlags& f)
             ExecOp eo;
             eo.api = po.api; eo.heap_instance = po.heap; eo.buffer = orr.rend.effective_buffer; eo.stream = po.stream;
             eo.verbose = po.verbose; eo.skip_ws = po.skip_ws; eo.skip_nl = po.skip_nl;
-            eo.input = orr.rend.bytes; eo.op_index = int(i);
+            eo.input = orr.rend.bytes; eo.op_index = int(i); eo.hash_image = p.hash_images;
             simrt::OpRec& rec = simrt::new_op(t);
             rec.wr_quota = po.stream_fail_after; rec.wr_fail_mode = po.stream_fail_mode;
             rec.alloc_fail_at = po.alloc_fail_at;
